@@ -351,7 +351,12 @@ func TestCampaign(t *testing.T) {
 			if strings.HasPrefix(c.Config, "server") {
 				c.Batch = []int{rapid.IntRange(1, 5).Draw(rt, "batch")}
 			}
+			var wild string
+			c.H, wild = hgen.MaybeRename(rt, c.H, 20)
 			v := runCase(c)
+			if wild != "" {
+				v.Class("renamed:" + wild)
+			}
 			col.Check(rt, ev.JSON(c), v)
 		})
 	})
